@@ -161,8 +161,19 @@ pub struct SubEntry {
     pub oid: usize,
     pub token: SubscriptionToken,
 }
+/// A memoised constructor that can be cloned like the `impl FnMut + Clone` the library returns.
+pub trait MemoF: FnMut(i64) -> Incr<i64> {
+    fn clone_box(&self) -> Box<dyn MemoF>;
+}
+impl<F: FnMut(i64) -> Incr<i64> + Clone + 'static> MemoF for F {
+    fn clone_box(&self) -> Box<dyn MemoF> {
+        Box::new(self.clone())
+    }
+}
+pub type MemoFn = Rc<RefCell<Box<dyn MemoF>>>;
+
 pub struct MemoEntry {
-    pub f: Option<Rc<RefCell<Box<dyn FnMut(i64) -> Incr<i64>>>>>,
+    pub f: Option<MemoFn>,
     pub src: Hid,
     /// (key, hid, weak) of every node the underlying function ever made
     pub made: Vec<(i64, Hid, WeakIncr<i64>)>,
@@ -228,6 +239,10 @@ pub struct World {
     /// watchdog: total callback invocations (C19 "never hang")
     pub total_calls: Cell<u64>,
     pub call_limit: u64,
+    /// targets of the special selectors (usize::MAX - 1, - 2)
+    pub last_bind: Cell<Option<Hid>>,
+    pub last_exported: Cell<Option<Hid>>,
+    pub last_bind_obs: Cell<Option<usize>>,
 }
 
 thread_local! {
@@ -267,6 +282,9 @@ impl World {
             me: me.clone(),
             total_calls: Cell::new(0),
             call_limit: 200_000,
+            last_bind: Cell::new(None),
+            last_exported: Cell::new(None),
+            last_bind_obs: Cell::new(None),
         })
     }
 
@@ -394,6 +412,12 @@ impl World {
         } else if idx == usize::MAX {
             // "the most recently created one"
             p.last().copied()
+        } else if idx == usize::MAX - 1 {
+            // "the bind created last"
+            self.last_bind.get().filter(|h| p.contains(h)).or(p.last().copied())
+        } else if idx == usize::MAX - 2 {
+            // "the node most recently handed out by a bind closure"
+            self.last_exported.get().filter(|h| p.contains(h)).or(p.last().copied())
         } else {
             Some(p[idx % p.len()])
         }
@@ -438,6 +462,11 @@ impl World {
         let p = self.live_obs();
         if p.is_empty() {
             None
+        } else if idx == usize::MAX {
+            p.last().copied()
+        } else if idx == usize::MAX - 1 {
+            // "the observer most recently put on a bind"
+            self.last_bind_obs.get().filter(|o| p.contains(o)).or(p.last().copied())
         } else {
             Some(p[idx % p.len()])
         }
@@ -487,7 +516,8 @@ pub fn rk_inputs(rk: &RK) -> Vec<Hid> {
         | RK::MapRefQ { src }
         | RK::MapWithOld { src, .. }
         | RK::BMap { src, .. }
-        | RK::Memo { src, .. } => vec![*src],
+        | RK::Memo { src, .. }
+        | RK::BMemo { src, .. } => vec![*src],
         RK::MapN { srcs, .. } | RK::Fold { srcs, .. } | RK::BFold { srcs, .. } => srcs.clone(),
         RK::Zip { a, b } | RK::ZipQ { a, b } | RK::DependOn { a, b } | RK::BMap2 { a, b, .. } => vec![*a, *b],
         RK::Bind { lhs, outers, .. } => {
